@@ -12,16 +12,18 @@ for pid in all_ids:
     c = P.PROPS[pid]
     checks.append({
         "property_id": pid,
-        "quick_cmd": "./check %s --tier quick" % pid,
-        "thorough_cmd": "./check %s --tier thorough" % pid,
+        "quick_cmd": "python3 ./check %s --tier quick" % pid,
+        "thorough_cmd": "python3 ./check %s --tier thorough" % pid,
         "evidence_file": "evidence/%s.json" % pid,
-        "replay_cmd_template": "./check %s --replay {path}" % pid,
+        "replay_cmd_template": "python3 ./check %s --replay {path}" % pid,
         "engine": "lean-model+harness",
         "level_claimed": {"category": "proof", "text": c["level_text"], "design_ref": c.get("design_ref", "DESIGN.md §5 " + pid)},
         "level_note": c["level_note"],
         "technique": c["technique"],
     })
 m["checks"] = checks
+# independent of the files' mode bits (a copied-over setup.sh once lost its x bit)
+m["setup_cmd"] = "cd /verif && bash ./setup.sh"
 m["not_applicable"] = [{"property_id": pid, "reason": P.NOT_YET.get(pid, "check not built yet in this revision; see DESIGN.md §9 staging")}
                        for pid in all_ids if pid not in P.PROPS]
 for e in m["engines"]:
